@@ -290,7 +290,8 @@ class AstChecks:
         vs += O.check_C06_block(outv, er) if isinstance(outv, dict) and outv.get('_t') == 'BlockStmt' else []
         vs += O.check_C06_collision(inv, outv, to_view(res['H'].status(), I.P.defs), res['cfgspec'].prefix)
         vs += O.check_C04(inv, outv, er, erased, res['cfgspec'].terms)
-        return vs, 7 + len(er.hooks)
+        vs += O.check_C01(inv, outv)
+        return vs, 8 + len(er.hooks)
 
     def check_path(self, I, ctx, res, replay, do_tv):
         defs = I.P.defs
